@@ -128,6 +128,7 @@ class Proc:
         self.cwd = "/srv"
         self.handlers = {}
         self.pending = []            # ordered, no duplicates (standard signals coalesce)
+        self.blocked = set()         # signal mask (pthread_sigmask): blocked signals stay pending
         self.sigint_flag = {}        # sig -> bool (True = interrupting, the signal.signal default)
         self.wakeup_fd = -1
         self.stopped = False
@@ -376,6 +377,8 @@ class Sim:
         """Does some pending signal wake task t from its current blocking call?"""
         p = t.proc
         for s in p.pending:
+            if s in p.blocked:
+                continue
             h = p.handlers.get(s, SIG_DFL)
             if h is SIG_IGN or (h is SIG_DFL and s in DEFAULT_IGNORE):
                 return True          # will be discarded at delivery; harmless wake
@@ -613,7 +616,7 @@ class Sim:
         if p.stopped:
             return
         cur = current_task()
-        if h is SIG_DFL and not (cur is not None and cur.proc is p):
+        if h is SIG_DFL and sig not in p.blocked and not (cur is not None and cur.proc is p):
             # default action: terminate (takes effect at once, whatever the target is doing)
             p.pending.remove(sig)
             self._terminate(p, sig)
@@ -626,8 +629,12 @@ class Sim:
             # fork by re-entry: this child is still re-executing the code that, in a real child, ran in the parent BEFORE fork().  The
             # process only begins to exist when its fork() returns 0; a signal sent to it meanwhile stays pending until then
             return False
-        while p.pending and not p.stopped:
-            sig = p.pending.pop(0)
+        i = 0
+        while i < len(p.pending) and not p.stopped:
+            if p.pending[i] in p.blocked:
+                i += 1
+                continue
+            sig = p.pending.pop(i)
             h = p.handlers.get(sig, SIG_DFL)
             if h is SIG_IGN or (h is SIG_DFL and sig in DEFAULT_IGNORE):
                 continue
@@ -766,6 +773,7 @@ class Sim:
         c.handlers = dict(parent.handlers)
         c.sigint_flag = dict(parent.sigint_flag)
         c.wakeup_fd = parent.wakeup_fd
+        c.blocked = set(parent.blocked)
         self.procs[pid] = c
         return c
 
